@@ -1,11 +1,15 @@
 (* C15 -- Compile-time constant evaluation agrees with Python.
-   Property theorems only; every proof is `exact <lemma>`; Print Assumptions under each. *)
+   Property theorems only; every proof is `exact <lemma>`; Print Assumptions under each.
+   [lv]   = LitValModel.lv, the model of core.literal_value (after the fix commits F15-1..3);
+   [eval] = PyValModel.eval, the reference semantics (a definition, validated against CPython). *)
 From Coq Require Import List ZArith Bool String.
 Import ListNotations.
 Require Import Pyrefact.Ops PyrefactGen.Tables PyrefactGen.TablesC15.
 Require Import Pyrefact.PyValModel Pyrefact.LitValModel Pyrefact.LitValProofs.
 Open Scope Z_scope.
 
+(* T15.0 the regenerated constants.COMPARISON_OPERATORS maps every operator token to the Python
+   function the reference semantics gives it (re-checked against the live table on every run). *)
 Theorem T15_0_operator_table_binop : forall o, table_fn (OB o) = Some (binop_fn o).
 Proof. exact table_binop. Qed.
 Print Assumptions T15_0_operator_table_binop.
@@ -13,3 +17,45 @@ Print Assumptions T15_0_operator_table_binop.
 Theorem T15_0_operator_table_cmpop : forall o, table_fn (OC o) = Some (cmpop_fn o).
 Proof. exact table_cmpop. Qed.
 Print Assumptions T15_0_operator_table_cmpop.
+
+(* T15.1 soundness, full strength: for EVERY expression of the fragment (any depth, any operand
+   lists, names, calls with and without keywords, method calls) and every binding of the variables
+   in scope: when literal_value returns a value, Python's evaluation returns exactly that value
+   (so it neither raises nor reaches an unmodelled/effectful call). *)
+Theorem T15_1_known_is_python_value : forall env e v, lv e = LKnown v -> eval env e = Val v.
+Proof. exact lv_sound. Qed.
+Print Assumptions T15_1_known_is_python_value.
+
+(* T15.1b an expression whose evaluation raises is never given a value. *)
+Theorem T15_1b_raising_is_not_known : forall env e k, eval env e = Exc k -> forall v, lv e <> LKnown v.
+Proof. exact lv_raise_not_known. Qed.
+Print Assumptions T15_1b_raising_is_not_known.
+
+(* T15.1c a known value does not depend on the variables in scope. *)
+Theorem T15_1c_known_is_closed : forall e v env1 env2, lv e = LKnown v -> eval env1 e = eval env2 e.
+Proof. exact lv_known_closed. Qed.
+Print Assumptions T15_1c_known_is_closed.
+
+(* T15.2 exactness on the operator fragment (literals under not / and / or / chained comparisons /
+   binary operators, any depth): literal_value returns exactly Python's VALUE (the deciding operand
+   of and/or, the bool of a comparison chain), says "unknown" exactly when evaluation raises, and no
+   exception escapes. *)
+Theorem T15_2_operator_fragment_exact : forall env e, frag e = true -> lv e = wrap (eval env e).
+Proof. exact frag_exact. Qed.
+Print Assumptions T15_2_operator_fragment_exact.
+
+(* non-trivial inputs meeting the hypotheses *)
+Example ex_known : lv (EBool true [EConst (VInt 1); EBin BAdd (EConst (VStr [97])) (EConst (VStr [98]))])
+                   = LKnown (VStr [97; 98]).
+Proof. vm_compute. reflexivity. Qed.
+Example ex_frag : frag (ECmp (EConst (VInt 0)) [(CLt, EBin BFloorDiv (EConst (VInt 1)) (EConst (VInt 0))); (CLt, EConst (VInt 2))]) = true.
+Proof. reflexivity. Qed.
+Example ex_raise_unknown : lv (ECmp (EConst (VInt 0)) [(CLt, EBin BFloorDiv (EConst (VInt 1)) (EConst (VInt 0))); (CLt, EConst (VInt 2))]) = LUnknown.
+Proof. vm_compute. reflexivity. Qed.
+(* the witnesses of the repaired defects *)
+Example ex_F15_1 : lv (EBin BDiv (EConst (VInt 1)) (EConst (VInt 0))) = LUnknown.
+Proof. vm_compute. reflexivity. Qed.
+Example ex_F15_2 : lv (ECall "sorted" [EList [EConst (VInt 2); EConst (VInt 1); EConst (VInt 3)]] [("reverse"%string, EConst (VBool true))]) = LUnknown.
+Proof. vm_compute. reflexivity. Qed.
+Example ex_F15_3 : lv (ECall "print" [EConst (VStr [120])] []) = LUnknown.
+Proof. vm_compute. reflexivity. Qed.
